@@ -677,6 +677,12 @@ pub fn interesting() {
 }
 
 /// Global event sequence number (no ties). Also usable from the unregistered main thread.
+/// Global event sequence number of the run in progress (0 between runs); read by the heartbeat
+/// thread of `orxsim transcript`, never by the simulation itself.
+pub fn progress() -> u64 {
+    lock().as_ref().map(|s| s.seq).unwrap_or(0)
+}
+
 pub fn next_seq() -> u64 {
     let _p = alloc::pause();
     let mut g = lock();
